@@ -5,7 +5,7 @@
 //	reset <base> [arb]       fresh State (mainnet parameters); block heights are base+1, base+2, …; with `arb` the real
 //	                         Arbiters is driven and `rb` goes through dpos CheckPoint.OnRollbackTo (the node's entry point)
 //	blk <h> <sponsor|-> <tx> <tx> …   ProcessBlock of a block built from symbolic transactions
-//	     tx: reg:<i>[:<stakeUntil>]  upd:<i>:<n>[:<stakeUntil>]  stake:<addr>:<amount>:<nonce>  vote1:<v>:<value>:<i>=<a>,…  rtp:<workingHeight>  rtd:<interval>:<revertHeight>  cancel:<i>  act:<i>  vote:<v>:<i>,<j>…  unvote:<v>  illegal:<i>:<nonce>  inactive:<i>:<nonce>
+//	     tx: reg:<i>[:<stakeUntil>]  upd:<i>:<n>[:<stakeUntil>]  stake:<addr>:<amount>:<nonce>  vote1:<v>:<value>:<i>=<a>,…  rtp:<workingHeight>  rtd:<interval>:<revertHeight>  dvote:<k>:<d|v2>:<i>=<a>,…:<nonce>  cancel:<i>  act:<i>  vote:<v>:<i>,<j>…  unvote:<v>  illegal:<i>:<nonce>  inactive:<i>:<nonce>
 //	special <h> illegal:<i>  ProcessSpecialTxPayload (temporary changes, outside any block)
 //	rb <k>                   RollbackTo(k) on the state that processed everything, compared with a
 //	                         FRESH State that processed only the blocks of height <= k
@@ -31,6 +31,8 @@ import (
 	"github.com/elastos/Elastos.ELA/common"
 	"github.com/elastos/Elastos.ELA/common/config"
 	"github.com/elastos/Elastos.ELA/core/checkpoint"
+	"github.com/elastos/Elastos.ELA/crypto"
+	"github.com/elastos/Elastos.ELA/core/contract"
 	"github.com/elastos/Elastos.ELA/core/contract/program"
 	"github.com/elastos/Elastos.ELA/core/transaction"
 	"github.com/elastos/Elastos.ELA/core/types"
@@ -194,7 +196,7 @@ func buildTx(en *env, d string) interfaces.Transaction {
 			su = uint32(v)
 		}
 		return mkTx(common2.UpdateProducer, 0, &payload.ProducerInfo{OwnerKey: ownerKeys[i], NodePublicKey: nodeKeys[i], NickName: fmt.Sprintf("P%d-%s", i, p[2]), StakeUntil: su}, nil, nil)
-	case "stake": // stake:<addr>:<amount>:<nonce>  vote1:<v>:<value>:<i>=<a>,…  rtp:<workingHeight>  rtd:<interval>:<revertHeight>   ExchangeVotes locking <amount> on stake address <addr>
+	case "stake": // stake:<addr>:<amount>:<nonce>  vote1:<v>:<value>:<i>=<a>,…  rtp:<workingHeight>  rtd:<interval>:<revertHeight>  dvote:<k>:<d|v2>:<i>=<a>,…:<nonce>   ExchangeVotes locking <amount> on stake address <addr>
 		a, _ := strconv.Atoi(p[1])
 		amt, _ := strconv.ParseInt(p[2], 10, 64)
 		n, _ := strconv.Atoi(p[3])
@@ -234,6 +236,28 @@ func buildTx(en *env, d string) interfaces.Transaction {
 			[]*common2.Attribute{{Usage: common2.Nonce, Data: []byte{byte(v), byte(v >> 8), 1}}}, []*common2.Input{}, []*common2.Output{out}, 0, []*program.Program{})
 		en.voteTxs[v] = tx
 		return tx
+	case "dvote": // dvote:<k>:<d|v2>:<i>=<a>,…:<nonce>  Voting tx (payload VoteVersion) from stake address k: Delegate or DposV2 votes
+		k := idx(p[1])
+		pk, err := crypto.DecodePoint(ownerKeys[k])
+		if err != nil {
+			panic("harness: bad key")
+		}
+		code, _ := contract.CreateStandardRedeemScript(pk)
+		vt := outputpayload.Delegate
+		if p[2] == "v2" {
+			vt = outputpayload.DposV2
+		}
+		var vi []payload.VotesWithLockTime
+		for _, c := range strings.Split(p[3], ",") {
+			kv := strings.Split(c, "=")
+			a, _ := strconv.Atoi(kv[1])
+			vi = append(vi, payload.VotesWithLockTime{Candidate: ownerKeys[idx(kv[0])], Votes: common.Fixed64(a), LockTime: 2000000})
+		}
+		n, _ := strconv.Atoi(p[4])
+		return functions.CreateTransaction(common2.TxVersion09, common2.Voting, payload.VoteVersion,
+			&payload.Voting{Contents: []payload.VotesContent{{VoteType: vt, VotesInfo: vi}}},
+			[]*common2.Attribute{{Usage: common2.Nonce, Data: []byte{byte(n), byte(n >> 8), 2}}}, []*common2.Input{}, []*common2.Output{}, 0,
+			[]*program.Program{{Code: code}})
 	case "rtp": // rtp:<workingHeight>   RevertToPOW
 		wh, _ := strconv.Atoi(p[1])
 		return functions.CreateTransaction(common2.TxVersion09, common2.RevertToPOW, payload.RevertToPOWVersion,
@@ -386,10 +410,37 @@ func flat(v reflect.Value, path string, out map[string]string, depth int) {
 	}
 }
 
-// fieldDump returns every leaf of the state's key frame.
+// fieldDump returns every leaf of the state's key frame.  The producer maps are dumped as key sets
+// (membership) and every producer once, under `.Producers[owner]`, whichever map(s) it sits in — so a
+// producer that is in another map after the rollback shows as a membership difference plus the fields
+// that really differ, not as a wholesale path difference.
 func fieldDump(st *state2.State) map[string]string {
 	res := map[string]string{}
-	flat(reflect.ValueOf(st.StateKeyFrame).Elem(), "", res, 0)
+	v := reflect.ValueOf(st.StateKeyFrame).Elem()
+	isProd := map[string]bool{}
+	for _, pm := range producerMaps {
+		isProd[strings.TrimSuffix(strings.TrimPrefix(pm, "."), "[]")] = true
+	}
+	prods := map[string]reflect.Value{}
+	for i := 0; i < v.NumField(); i++ {
+		name := v.Type().Field(i).Name
+		if isProd[name] && v.Field(i).Kind() == reflect.Map {
+			it := v.Field(i).MapRange()
+			for it.Next() {
+				k := canon(it.Key(), 0)
+				res["."+name+"["+k+"]#"] = "present"
+				if _, ok := prods[k]; !ok {
+					prods[k] = it.Value()
+				}
+			}
+			continue
+		}
+		flat(v.Field(i), "."+name, res, 0)
+	}
+	for k, pv := range prods {
+		res[".Producers["+k+"]#"] = "present"
+		flat(pv, ".Producers["+k+"]", res, 0)
+	}
 	return res
 }
 
@@ -412,7 +463,7 @@ func arbDump(a *state2.Arbiters, res map[string]string) {
 }
 
 var producerMaps = []string{".ActivityProducers[]", ".PendingProducers[]", ".CanceledProducers[]", ".InactiveProducers[]",
-	".IllegalProducers[]", ".PendingCanceledProducers[]", ".DposV2EffectedProducers[]"}
+	".IllegalProducers[]", ".PendingCanceledProducers[]", ".DposV2EffectedProducers[]", ".Producers[]"}
 
 // leafName strips map keys / indices: `.ActivityProducers[k].penalty` -> `Producer.penalty`
 func leafName(path string) string {
@@ -599,15 +650,15 @@ func exec1(t []string) string {
 		zeroEntry := func(m map[string]string, prefix string) bool {
 			numeric := false
 			for pth, v := range m {
-				if strings.HasPrefix(pth, prefix) && !strings.HasSuffix(pth, "#") && !strings.HasSuffix(pth, ".len") {
-					if v == "0" {
+				if strings.HasPrefix(pth, prefix) && !strings.HasSuffix(pth, "#") {
+					if v == "0" { // a zero amount / counter, or an empty container (`.len` = 0)
 						numeric = true
-					} else if v != "{}" && v != "false" && v != "nil" {
+					} else if strings.HasSuffix(pth, ".len") || (v != "{}" && v != "false" && v != "nil") {
 						return false
 					}
 				}
 			}
-			return numeric // an amount / counter entry whose every field is zero
+			return numeric // an entry whose every field is zero / empty
 		}
 		noteEntry := func(pth, tag, va, vb string) {
 			n := leafName(pth)
@@ -706,13 +757,14 @@ var lastEmergTwice, lastTwoMaps, lastSpecial bool
 var reportedN = map[string]int{}
 
 // leaf names of the differences recorded in known-findings.jsonl (only used to order the report)
-var recordedLeaf = map[string]bool{"LastIrreversibleHeight": true, "PreBlockArbiters[+]": true, "PreBlockArbiters[-]": true, "DposV2VoteRights[+0]": true,
+var recordedLeaf = map[string]bool{"LastIrreversibleHeight": true, "PreBlockArbiters[+]": true, "PreBlockArbiters[-]": true, "DposV2VoteRights[+0]": true, "UsedDposV2Votes[+0]": true, "UsedDposVotes[+0]": true, "Producer.detailedDPoSV2Votes[+0]": true,
 	"Producer.inactiveCountingHeight": true, "Producer.inactiveCount": true, "Producer.activateRequestHeight": true}
 
 // the three membership leaves are a recorded finding only when the rolled-back range contains an
 // emergency-inactive transaction on a producer that was already inactive
 var emergLeaf = map[string]bool{"ActivityProducers[+]": true, "InactiveProducers[-]": true, "EmergencyInactiveArbiters[-]": true,
-	"Producer.inactiveSince": true, "Producer.state": true, "Producer.penalty": true} // the constants revertSettingInactiveProducer writes
+	"Producer.inactiveSince": true, "Producer.state": true, "Producer.penalty": true, // the constants revertSettingInactiveProducer writes
+}
 
 // a CancelProducer in the block in which the pending producer is activated leaves it Active AND in
 // CanceledProducers with its nickname released; later constant undos (cancelHeight = 0, nickname re-added) show it
@@ -837,7 +889,12 @@ func gen(g *hx.Gen) {
 						i = (i + 1) % 10
 					}
 					if stateOf(i) == -1 && st.GetProducer(nodeKeys[i]) == nil && !usedInBlock[i] {
-						txs = append(txs, fmt.Sprintf("reg:%d", i))
+						if r.Chance(30) {
+							stakeUntil += uint32(1 + r.Intn(1000))
+							txs = append(txs, fmt.Sprintf("reg:%d:%d", i, stakeUntil)) // a DPoS 2.0 producer
+						} else {
+							txs = append(txs, fmt.Sprintf("reg:%d", i))
+						}
 						registered[i] = true
 						usedInBlock[i] = true
 					}
@@ -914,6 +971,18 @@ func gen(g *hx.Gen) {
 					txs = append(txs, fmt.Sprintf("vote1:%d:%d:%s", votes, sum+r.Intn(50), strings.Join(cs, ",")))
 					liveVotes = append(liveVotes, votes)
 					votes++
+				}
+			}
+			if r.Chance(15) { // Voting transactions (stake-address votes): Delegate and DposV2 contents
+				var cs []string
+				for j := 0; j < 10; j++ {
+					sj := stateOf(j)
+					if (sj == int(state2.Pending) || sj == int(state2.Active)) && !usedInBlock[j] && r.Chance(45) {
+						cs = append(cs, fmt.Sprintf("%d=%d", j, 100+r.Intn(900)))
+					}
+				}
+				if len(cs) > 0 {
+					txs = append(txs, fmt.Sprintf("dvote:%d:%s:%s:%d", r.Intn(3), []string{"d", "v2"}[r.Intn(2)], strings.Join(cs, ","), nonce()))
 				}
 			}
 			if r.Chance(8) && !e.arbMode { // consensus mode switches (in Arbiters mode the revert logic needs the real chain: it can block)
